@@ -90,7 +90,7 @@ def natural_matrix(ctx):
 def operator_level(ctx, rnd):
     inv_ops = oc.INV_C06_OPS + ["RefreshEqualsRebuild"]
     # ---- 1. operator level
-    jobs = oc.ops_level(ctx, "C06", inv_ops, rnd, nsample=160 if ctx.quick else 8000, short=3,
+    jobs = oc.ops_level(ctx, "C06", inv_ops, rnd, nsample=100 if ctx.quick else 8000, short=3,
                         mutants=[m for m in oc.OPS_MUTANTS if m[0] in ("MMask", "MFixPsi")] if ctx.quick else None)
     ops_traces = [t for r in rf.replay_all(ctx, jobs) for t in r]
     good = oc.judge_ops_traces(ctx, "C06", ops_traces, inv_ops)
@@ -224,8 +224,9 @@ def solver_level(ctx):
         oc.in_parallel([lambda: oc.canary(ctx, nat_traces[pinned[0]], mech, oc.INV_C06_STEP, drift, "C06/natural value drifts"),
                         lambda: oc.canary(ctx, nat_traces[pinned[-1]], mech, oc.INV_C06_STEP, frame_drift, "C06/natural frame drifts"),
                         lambda: oc.canary(ctx, nat_traces[free[0]], mech, oc.INV_C06_STEP, stuck, "C06/natural unset value stuck"),
-                        lambda: oc.canary(ctx, nat_traces[pinned[0]], mech, oc.INV_C06_STEP, everything_pinned,
-                                          "C06/natural non-terminal sites frozen")])
+                        ] + ([] if ctx.quick else [
+                            lambda: oc.canary(ctx, nat_traces[pinned[0]], mech, oc.INV_C06_STEP, everything_pinned,
+                                              "C06/natural non-terminal sites frozen")]))
     elif not ctx.violations:
         raise core.MachineryFailure("C06: no accepted natural run with pinned / with free terminals")
 
